@@ -13,8 +13,11 @@
   * `deserialize_next(line, T)`: null line or null table → BLOC error; only the LAST element of `T` is handed to the
     parser (`data = [T.last]`, erased from `T`), the parser's result is appended to what is left of `T`. So after a parse
     error (`out.clear()` in the core) the EARLIER fields of the record stay in `T` — only the field being continued is
-    lost. `*(c.at(last).literal())` dereferences the element without a null test: a NULL last element is a null pointer
-    dereference (outcome `hazardNullElem`, recorded finding `C18.csv_next_null_last_element`).
+    lost. A NULL last element is taken as the empty string (`if (c.at(last).isNull()) data.push_back(std::string())`,
+    /repo ad063b9; before that commit `*(c.at(last).literal())` dereferenced the null pointer: finding
+    `C18.csv_next_null_last_element`, now fixed). So the null element is CONTINUED like an empty field: the parser
+    starts inside an encapsulated value (`encap = next && !out.empty()`), and the element that comes back is a non-null
+    string. Earlier null elements of `T` are not touched (they stay null).
   * `in_error()`, `error_pos()`: the parser's members.
   The serializers for tuples / boolean / numeric tables go through `Value::readable…` (number formatting, C09/C10) and are
   not modelled here.
@@ -65,8 +68,6 @@ inductive Res
   | str (s : BStr)
   /-- RuntimeError "Invalid arguments." -/
   | err
-  /-- `*(c.at(last).literal())` with a null element -/
-  | hazardNullElem
   /-- `out.back()` on an empty vector in the parser core (never produced: `csv_plugin_total`) -/
   | hazardEmptyBack
   deriving DecidableEq, Repr
@@ -78,8 +79,11 @@ structure World where
   tbl : Option BTable := some []
   deriving DecidableEq, Repr
 
+/-- what the plugin copies out of one element: a null element becomes "" -/
+def fieldOf (x : BStr) : Field := match x with | some f => f | none => []
+
 /-- the copy into `std::vector<std::string>`: a null element becomes "" -/
-def fields (t : BTable) : Row := t.map fun x => match x with | some f => f | none => []
+def fields (t : BTable) : Row := t.map fieldOf
 
 def step (w : World) : Op → World × Res
   | .serialize =>
@@ -102,16 +106,16 @@ def step (w : World) : Op → World × Res
         match deserializeNext w.cfg w.ps [] line with
         | .done next out ps' => ({ w with ps := ps', tbl := some (out.map some) }, .bool next)
         | .hazardEmptyBack => (w, .hazardEmptyBack)
-      | some none => (w, .hazardNullElem)
-      | some (some last) =>
-        match deserializeNext w.cfg w.ps [last] line with
+      | some e =>
+        -- `data = [T.last]` (a null element as the empty string), `c.erase(last)`
+        match deserializeNext w.cfg w.ps [fieldOf e] line with
         | .done next out ps' => ({ w with ps := ps', tbl := some (t.dropLast ++ out.map some) }, .bool next)
         | .hazardEmptyBack => (w, .hazardEmptyBack)
   | .inError => (w, .bool w.ps.error)
   | .errorPos => (w, .int w.ps.errorPos)
 
 def Res.isHazard : Res → Bool
-  | .hazardNullElem | .hazardEmptyBack => true
+  | .hazardEmptyBack => true
   | _ => false
 
 end BlocV.Mod.CsvPlugin
